@@ -683,8 +683,10 @@ func AddClient(group string, c Client, creds ClientCredentials) (*Group, error) 
 		return nil, ProtocolError("duplicate client id")
 	}
 	if !system {
-		// only install the permissions once the client is admitted
-		c.Init(username, perms)
+		// only install the permissions once the client is admitted.
+		// The client may edit its permissions in place, don't let
+		// it share the slice with the description or the token.
+		c.Init(username, slices.Clone(perms))
 	}
 	g.clients[id] = c
 	g.timestamp = time.Now()
